@@ -43,7 +43,10 @@ def main():
     rc, out = sh("go build ./... && go vet . && go test -vet=off -count=1 ./...", wt)
     meta["suite_passes_with_change"] = rc == 0
     meta["ran"].append("go build ./... && go vet . && go test -vet=off -count=1 ./...   (with the change: rc=%d)" % rc)
-    flags = "-race" if "-race" in notes and "without `-race`" not in notes and "not `-race`" not in notes else ""
+    flags = "-race" if pid == "C16" or ("-race" in notes and "without `-race`" not in notes and "not `-race`" not in notes) else ""
+    if pid in ("C18", "C13") and "-d=checkptr" in notes:
+        flags = "-gcflags=all=-d=checkptr"
+    demo_env = "GOARCH=386 " if "GOARCH=386" in notes else ""
 
     def run_demo():
         results = []
@@ -54,7 +57,7 @@ def main():
                 os.remove(f"{wt}/demo.sh")
             else:
                 shutil.copy(f"{stash}/{var}/{d}", f"{wt}/zz_{d}")
-                rc, out = sh(f"go test {flags} -vet=off -count=1 -run 'TestDemo' .", wt)
+                rc, out = sh(f"{demo_env}go test {flags} -vet=off -count=1 -run 'TestDemo' .", wt)
                 os.remove(f"{wt}/zz_{d}")
             results.append((rc, out[-600:]))
         return results
@@ -66,7 +69,7 @@ def main():
     meta["demo_passes_without_change"] = all(rc == 0 for rc, _ in r2)
     sh("git checkout -- . && git clean -fdq", wt)
     shutil.copytree(stash, f"{wt}/out", dirs_exist_ok=True)
-    meta["ran"].append(f"go test {flags} -run TestDemo . with and without the change")
+    meta["ran"].append(f"{demo_env}go test {flags} -run TestDemo . with and without the change")
     # ---- run the checks against /repo with the change ---------------------------------------------------
     rc, out = sh(["git", "-C", "/repo", "status", "--short"], ROOT)
     if out.strip():
